@@ -197,6 +197,9 @@ func ruleR29_2(c *Check) {
 	n := r.DomAll(dp, "prefixes dropped from the levels after the memtable loop", dpx, 0, selStore(w.Field("badger.DB.imm")), 0)
 	r.Exists(n >= 1, dp, "dropPrefixes call", nil, "DropPrefix no longer calls lc.dropPrefixes")
 	r.DomAll(dp, "compactions stopped before prefixes are dropped", dpx, 0, selCallName(w, "badger.DB.stopCompactions"), 0)
+	// … but only after the memtables were flushed: a flush into a level 0 that is at its stall limit
+	// waits for a compaction, which never comes once the compactors are stopped
+	r.NeverAfterAll(dp, "no memtable flush after compactions were stopped", selCallName(w, "badger.DB.stopCompactions"), 0, hf, 1)
 	// memtable loop: ranges over db.imm after appending db.mt
 	okLoop := false
 	dp.walkInl(func(own *Fn, x ast.Node) bool {
